@@ -940,11 +940,19 @@ func (vc *VC) mapWritesInLoop(hdr *ssa.BasicBlock, r *ssa.Range) (ins, del bool)
 							continue
 						}
 					}
-					// unknown effect on maps: only relevant if the callee can reach the ranged map; be conservative
-					// for maps reachable from parameters/fields, not for maps made locally and not passed on
-					if _, local := strip(r.X).(*ssa.MakeMap); !local {
-						if sp != nil {
-							ins = true
+					// the callee may modify maps: it can reach the ranged map through a map-typed argument that may
+					// alias it, or (when its modifies clause goes through fields) through the heap if the ranged map
+					// itself was read from a field
+					if sp != nil {
+						for _, a := range x.Call.Args {
+							if sameType(a.Type()) && mayAlias(a, r.X) {
+								ins = true
+							}
+						}
+						if u, ok := strip(r.X).(*ssa.UnOp); ok {
+							if _, fromField := u.X.(*ssa.FieldAddr); fromField && strings.Contains(txt0(sp), ".") {
+								ins = true
+							}
 						}
 					}
 				}
@@ -952,4 +960,12 @@ func (vc *VC) mapWritesInLoop(hdr *ssa.BasicBlock, r *ssa.Range) (ins, del bool)
 		}
 	}
 	return
+}
+
+func txt0(sp *FuncSpec) string {
+	t := ""
+	for _, m := range sp.Modifies {
+		t += exprString(m) + ";"
+	}
+	return t
 }
